@@ -712,6 +712,10 @@ fn cmd_dump() -> i32 {
     for h in 0..corpus::DER_HANDLES {
         let hd = corpus::der_handle(h);
         let m = &corpus::MANIFEST[h];
+        if matches!(m.place, corpus::Place::NotExportable) {
+            println!("{:10} not exportable: name={}", m.label, (hd.name)());
+            continue;
+        }
         let deps: Vec<String> = (hd.dependencies)().into_iter().map(|d| d.0).collect();
         println!("{:10} ident={:6} path={:?}\n    decl: {}\n    deps(reported): {:?}\n    manifest imports: {:?}", m.label, (hd.ident)(), (hd.output_path)(), (hd.decl)(), deps, m.import_refs.iter().map(|r| corpus::MANIFEST[*r].label).collect::<Vec<_>>());
     }
